@@ -182,4 +182,120 @@ Section NoPanic.
     - destruct (DR s0 resp E0 eq_refl) as [D1 D2]. destruct resp; try discriminate H; try contradiction.
     - eapply (ERR d1 e2 x Hok1); exact H.
   Qed.
+
+  (* ---- rxc_listen: Class C reception never produces a response ListenResponse::from panics on *)
+  Lemma hrx_session_resp_classc s cf rg bytes maxp snr o :
+    handle_rx_session enc mac_fn s cf rg bytes maxp snr true = Val o ->
+    ro_resp o = RNoUpdate \/ ro_resp o = RSessionExpired \/ exists f, ro_resp o = RDownlinkReceived f.
+  Proof.
+    unfold handle_rx_session.
+    destruct (validate bytes) as [lay|e]; [|intros H; injection H as <-; left; reflexivity].
+    destruct (Nat.ltb _ _); [intros H; injection H as <-; left; reflexivity|].
+    destruct (next_fcnt_down _ _) as [n|]; [|intros H; injection H as <-; left; reflexivity].
+    destruct (negb _); [intros H; injection H as <-; left; reflexivity|].
+    destruct (decrypt_in_place _ _ _ _ _) as [[lay'|e] buf]; [|intros H; discriminate].
+    cbn [andb]. intros H. injection H as <-. cbn [ro_resp]. destruct (ss_fcnt_up s =? 0xFFFFFFFF); [right; left; reflexivity|right; right; eexists; reflexivity].
+  Qed.
+
+  Lemma rxc_listen_loop_np rf : forall fuel d e d' e' res, rxc_listen_loop enc mac_fn fuel d e rf = (d', e', res) -> dok d -> res <> APanic.
+  Proof.
+    induction fuel as [|k IH]; intros d e d' e' res H Hok; cbn [rxc_listen_loop] in H; [injection H as _ _ <-; discriminate|].
+    destruct (pop e) as [[[| |f|]|] e1]; try (injection H as _ _ <-; discriminate).
+    - destruct (call e1 ARxCont) as [e2 ok]. injection H as _ _ <-. discriminate.
+    - destruct (call e1 ARxCont) as [e2 ok]. destruct ok; cbn [negb] in H; [|injection H as _ _ <-; discriminate].
+      destruct (mac_handle_rx_total enc mac_fn enc_len (ad_mac d) (firstn 256 f) 5 (rf_max_payload rf) true Hok) as [o [E OK]]. rewrite E in H.
+      destruct o as [o|]; [|injection H as _ _ <-; discriminate].
+      assert (RC : mo_resp o = RNoUpdate \/ mo_resp o = RSessionExpired \/ exists f0, mo_resp o = RDownlinkReceived f0).
+      { unfold mac_handle_rx in E. destruct (m_state (ad_mac d)) as [s| |]; try discriminate E.
+        destruct (handle_rx_session enc mac_fn s (m_cfg (ad_mac d)) (m_region (ad_mac d)) (firstn 256 f) (rf_max_payload rf) 5 true) as [ro| |] eqn:HS; try discriminate E.
+        injection E as <-. cbn [mo_resp]. eapply hrx_session_resp_classc. exact HS. }
+      destruct RC as [R|[R|[f0 R]]]; rewrite R in H; cbn [hmr] in H.
+      + eapply IH; [exact H|apply (OK o eq_refl)].
+      + injection H as _ _ <-. discriminate.
+      + injection H as _ _ <-. discriminate.
+  Qed.
+  Theorem adev_listen_never_panics d e d' e' res : adev_listen enc mac_fn d e = (d', e', res) -> dok d -> res <> APanic.
+  Proof.
+    unfold adev_listen. intros H Hok. destruct (rxc_config_total _ Hok) as [rf E]. rewrite E in H. eapply rxc_listen_loop_np; eassumption.
+  Qed.
+
+  (* ---- join: while the join exchange is in flight the MAC answers NoUpdate, JoinSuccess or (window end) NoJoinAccept only *)
+  Hypothesis mac_len : forall k b, length (mac_fn k b) = 16%nat.
+  Definition joining (d : adev) : Prop := exists n c, m_state (ad_mac d) = Otaa n c.
+
+  Lemma join_keeps_invariant m c draws o : mac_ok m -> join_otaa mac_fn m c draws = Val o -> mac_ok (to_mac o) /\ exists n, m_state (to_mac o) = Otaa n c.
+  Proof.
+    intros Hok JO. unfold join_otaa in JO. destruct draws as [|d0 rest]; [discriminate JO|].
+    destruct (build_join_request _ _ _ _ _ _) as [[buf len]|er]; [|discriminate JO].
+    set (m1 := with_state m (Otaa (d0 mod 65536) c)) in *. assert (Hok1 : mac_ok m1) by exact Hok.
+    destruct Hok as [Hrg [C1 C2]]. destruct (uplink_dr (m_region m) (cf_data_rate (m_cfg m))) as [xx|] eqn:Eu; [|congruence].
+    pose proof (tx_tail_ok m1 (cf_data_rate (m_cfg m1)) true rest Hok1 (ex_intro _ xx (datarate_index_of_get _ _ _ (uplink_dr_defined _ _ _ Eu))) (m_max_power m1)) as T.
+    destruct (create_tx_config (m_region m1) (cf_data_rate (m_cfg m1)) true rest) as [[[[[pw0 rf0] tc] rg'] rest']| |]; try discriminate JO.
+    destruct (adjust_power pw0 (m_max_power m1) (m_gain m1)) as [pw| |]; try discriminate JO.
+    destruct T as [ww [Ew Hm]]. rewrite Ew in JO. destruct ww. injection JO as <-. split; [exact Hm|]. eexists. reflexivity.
+  Qed.
+
+  Lemma rx_listen_joining d e rf d' e' res : rx_listen enc mac_fn d e rf = (d', e', res) -> joining d ->
+    (res = AOk None -> joining d') /\ (forall r, res = AOk (Some r) -> r = RJoinSuccess).
+  Proof.
+    unfold rx_listen. intros H [n [c J]]. destruct (call e ARxSingle) as [e1 ok]. destruct ok; cbn [negb] in H.
+    2:{ injection H as _ _ <-. split; [intros X; discriminate X|intros r X; discriminate X]. }
+    destruct (pop e1) as [[[| |f|]|] e2]; try (destruct (window_complete d e2) as [e3 w]; injection H as <- _ <-; split; [intros _; exists n, c; exact J|intros r X; destruct w; discriminate X]).
+    - unfold mac_handle_rx in H. rewrite J in H. unfold otaa_handle_rx in H.
+      destruct (ja_check_mic_and_decrypt enc mac_fn (firstn 256 f) (cr_appkey c)) as [[u|er] clear].
+      + destruct (region_join_accept _ _) as [rg'| |]; try (injection H as _ _ <-; split; [intros X; discriminate X|intros r X; discriminate X]).
+        destruct (window_complete _ e2) as [e3 w]. injection H as _ _ <-. split; [intros X; destruct w; discriminate X|].
+        intros r X. destruct w; try discriminate X. injection X as <-. reflexivity.
+      + destruct (window_complete _ e2) as [e3 w]. injection H as <- _ <-. split; [intros _; exists n, c; exact J|intros r X; destruct w; discriminate X].
+  Qed.
+
+  Lemma rxc_until_joining rf duration : forall fuel d e resp d' e' res, rxc_until enc mac_fn fuel d e rf duration resp = (d', e', res) -> joining d ->
+    forall x, res = AOk x -> d' = d.
+  Proof.
+    induction fuel as [|k IH]; intros d e resp d' e' res H J x X; cbn [rxc_until] in H; [injection H as _ _ <-; discriminate X|].
+    destruct (pop e) as [[[| |f|]|] e1]; try (injection H as <- _ _; reflexivity).
+    - destruct (call e1 ARxCont) as [e2 ok]. injection H as <- _ _. reflexivity.
+    - destruct (call e1 ARxCont) as [e2 ok]. destruct ok; cbn [negb] in H; [|injection H as <- _ _; reflexivity].
+      destruct J as [n [c J]]. unfold mac_handle_rx in H. rewrite J in H. injection H as _ _ <-. discriminate X.
+  Qed.
+  Lemma between_joining d e duration d' e' res x : between_windows enc mac_fn d e duration = (d', e', res) -> joining d -> res = AOk x -> d' = d.
+  Proof.
+    unfold between_windows. intros H J X. destruct (ad_classc d).
+    - destruct (rxc_config (ad_mac d)) as [rf| |]; try (injection H as <- _ _; reflexivity).
+      destruct (call e (ASetupRx rf None)) as [e1 ok]. destruct ok; cbn [negb] in H; [|injection H as <- _ _; reflexivity].
+      eapply rxc_until_joining; eassumption.
+    - destruct (call e ALowPower) as [e1 ok]. destruct ok; cbn [negb] in H; injection H as <- _ _; reflexivity.
+  Qed.
+
+  Lemma rx_downlink_joining d e wd rx1 rx2 d' e' r : rx_downlink enc mac_fn d e true wd rx1 rx2 = (d', e', AOk r) -> joining d ->
+    r = RJoinSuccess \/ r = RNoJoinAccept.
+  Proof.
+    unfold rx_downlink. intros H J. destruct (_ <? _); [discriminate H|].
+    destruct (between_windows enc mac_fn d e _) as [[d1 e1] b1] eqn:B1. destruct b1; try discriminate H.
+    pose proof (between_joining _ _ _ _ _ _ _ B1 J eq_refl) as ->.
+    destruct (call e1 (ASetupRx rx1 (Some (ad_lead d)))) as [e2 ok]. destruct ok; cbn [negb] in H; [|discriminate H].
+    destruct (rx_listen enc mac_fn d e2 rx1) as [[d2 e3] l1] eqn:L1. destruct (rx_listen_joining _ _ _ _ _ _ L1 J) as [J2 S2].
+    destruct l1 as [[r1|]| | | |]; try discriminate H.
+    - injection H as _ _ <-. left. apply S2. reflexivity.
+    - specialize (J2 eq_refl). destruct (_ <? _); [discriminate H|].
+      destruct (between_windows enc mac_fn d2 e3 _) as [[d3 e4] b2] eqn:B2. destruct b2; try discriminate H.
+      pose proof (between_joining _ _ _ _ _ _ _ B2 J2 eq_refl) as ->.
+      destruct (call e4 (ASetupRx rx2 (Some (ad_lead d)))) as [e5 ok2]. destruct ok2; cbn [negb] in H; [|discriminate H].
+      destruct (rx_listen enc mac_fn d2 e5 rx2) as [[d4 e6] l2] eqn:L2. destruct (rx_listen_joining _ _ _ _ _ _ L2 J2) as [J4 S4].
+      destruct l2 as [[r2|]| | | |]; try discriminate H.
+      + injection H as _ _ <-. left. apply S4. reflexivity.
+      + destruct (J4 eq_refl) as [n [c J5]]. unfold mac_rx2_complete in H. rewrite J5 in H. injection H as _ _ <-. right. reflexivity.
+  Qed.
+
+  Theorem adev_join_never_panics d e c draws d' e' res : adev_join enc mac_fn d e c draws = (d', e', res) -> dok d -> ad_lead d <= 100 -> res <> APanic.
+  Proof.
+    unfold adev_join. intros H Hok HL. pose proof (join_never_panics mac_fn (ad_mac d) c draws Hok mac_len) as NJ.
+    destruct (join_otaa mac_fn (ad_mac d) c draws) as [o| |] eqn:JO; try contradiction; [|injection H as _ _ <-; discriminate].
+    destruct (join_keeps_invariant _ _ _ _ Hok JO) as [Hok0 [n J0]].
+    destruct (call e (ATx (to_tx o) (to_frame o))) as [e1 ok]. destruct ok; cbn [negb] in H; [|injection H as _ _ <-; discriminate].
+    destruct (rx_downlink enc mac_fn (with_mac d (to_mac o)) (tr e1 ATimerReset) true 100 (to_rx1 o) (to_rx2 o)) as [[d1 e2] r] eqn:RD.
+    destruct (rx_downlink_np _ _ _ _ _ _ _ _ _ RD Hok0 HL) as [_ [NP _]].
+    destruct r as [resp|x| | |]; try (injection H as _ _ <-; discriminate); try contradiction.
+    destruct (rx_downlink_joining _ _ _ _ _ _ _ _ RD (ex_intro _ n (ex_intro _ c J0))) as [-> | ->]; injection H as _ _ <-; discriminate.
+  Qed.
 End NoPanic.
